@@ -434,3 +434,65 @@ func init() {
 		return []Val{{Typ: instr.(ssa.Value).Type(), Comps: []Term{rptr, newLen, rcap}}}
 	}
 }
+
+func init() {
+	// sync/atomic typed values: sequential semantics (assumption A5): Load/Store of the value field
+	for _, tn := range []string{"Uint64", "Uint32", "Int64", "Int32", "Bool"} {
+		tn := tn
+		field := func(f *Frame, instr ssa.Instruction) (types.Type, int, types.Type, bool) {
+			call, ok := instr.(ssa.CallInstruction)
+			if !ok || call.Common().StaticCallee() == nil {
+				return nil, 0, nil, false
+			}
+			recv := call.Common().StaticCallee().Signature.Recv()
+			if recv == nil {
+				return nil, 0, nil, false
+			}
+			pt, ok := under(recv.Type()).(*types.Pointer)
+			if !ok {
+				return nil, 0, nil, false
+			}
+			st, ok := under(pt.Elem()).(*types.Struct)
+			if !ok {
+				return nil, 0, nil, false
+			}
+			for i := 0; i < st.NumFields(); i++ {
+				if st.Field(i).Name() == "v" {
+					return pt.Elem(), i, st.Field(i).Type(), true
+				}
+			}
+			return nil, 0, nil, false
+		}
+		externModels["sync/atomic.(*"+tn+").Store"] = func(f *Frame, instr ssa.Instruction, st *State, args []Val, pos token.Pos) []Val {
+			g := f.g
+			T, i, ft, ok := field(f, instr)
+			if !ok {
+				g.havocAll(st)
+				return nil
+			}
+			g.frameStore(st, fieldKey(T, i), args[0].Comps[0], intLit(1), pos, f.text(pos))
+			g.storeLeaf(st, fieldKey(T, i), args[0].Comps[0], Val{Typ: ft, Comps: args[1].Comps})
+			g.bumpTokAt(st, &args[0].Comps[0], false)
+			return nil
+		}
+		externEffects["sync/atomic.(*"+tn+").Store"] = func(lm *loopMods) { lm.all = true }
+		externModels["sync/atomic.(*"+tn+").Load"] = func(f *Frame, instr ssa.Instruction, st *State, args []Val, pos token.Pos) []Val {
+			g := f.g
+			T, i, ft, ok := field(f, instr)
+			if !ok {
+				return []Val{g.freshVal("atomic", instr.(ssa.Value).Type())}
+			}
+			return []Val{g.loadLeaf(st, fieldKey(T, i), args[0].Comps[0], ft)}
+		}
+	}
+	// slices.Concat(ss...): a freshly allocated slice (never aliases its arguments)
+	externModels["slices.Concat[]"] = func(f *Frame, instr ssa.Instruction, st *State, args []Val, pos token.Pos) []Val {
+		g := f.g
+		sl := under(instr.(ssa.Value).Type()).(*types.Slice)
+		n := g.freshComp("clen", Comp{Sort: SInt, Kind: KSliceLen})
+		v := g.makeSlice(st, sl.Elem(), n, n)
+		g.havocRange(st, sl.Elem(), v.Comps[0], n)
+		v.Typ = instr.(ssa.Value).Type()
+		return []Val{v}
+	}
+}
